@@ -296,7 +296,7 @@ def compositional_unit(p, item, tier, seed):
 def make_cases(tier, rnd):
     thorough = tier == "thorough"
     cases = []
-    hosts = ["fresh", "fresh", "host", "repeat"]
+    hosts = ["fresh", "fresh", "host", "repeat", "literal-labels"]
     grid = 8 if thorough else 5
     diag = 8 if thorough else 7
     for mode in MUL_MODES:
